@@ -141,7 +141,7 @@ func H18_wiring() {
 	}
 	// exactly one transport credential among the dial options: TLS over that configuration
 	n := 0
-	for _, o := range s.dialOptions {
+	for _, o := range s.DialOptions() {
 		if vOpaqueTag(o) == "transport-credentials" {
 			n++
 		}
@@ -156,9 +156,9 @@ func H18_wiring() {
 	c, ok := m18TCArg.(*m18Creds)
 	vAssert(ok && c == m18LastCreds && c.cfg == m18Cfg, "C18.transport-credentials-are-the-tls-credentials")
 	// endpoints are host:port of the configured hosts, in order
-	vAssert(len(s.endpoints) == ne, "C18.endpoints")
-	for i := 0; i < ne && i < len(s.endpoints); i++ {
-		vAssert(vEqString(s.endpoints[i], hosts[i]+":4443"), "C18.endpoint-is-host-colon-port")
+	vAssert(len(s.Endpoints()) == ne, "C18.endpoints")
+	for i := 0; i < ne && i < len(s.Endpoints()); i++ {
+		vAssert(vEqString(s.Endpoints()[i], hosts[i]+":4443"), "C18.endpoint-is-host-colon-port")
 	}
 	vReach("C18.wiring-ok")
 
@@ -169,10 +169,10 @@ func H18_wiring() {
 	for i := 0; i < len(m18Dials) && i < ne; i++ {
 		vAssert(vEqString(m18Dials[i], hosts[i]+":4443"), "C18.dial-target-is-the-endpoint")
 		opts := m18DialOpts[i]
-		same := len(opts) == len(s.dialOptions)
+		same := len(opts) == len(s.DialOptions())
 		tc := 0
 		for j := 0; same && j < len(opts); j++ {
-			if vOpaqueTag(opts[j]) != vOpaqueTag(s.dialOptions[j]) {
+			if vOpaqueTag(opts[j]) != vOpaqueTag(s.DialOptions()[j]) {
 				same = false
 			}
 			if vOpaqueTag(opts[j]) == "transport-credentials" {
